@@ -256,7 +256,8 @@ META = {
  'C03': dict(engine='coq+tree', design_ref='DESIGN.md section 5 C03',
    technique='Coq theorems about the entry refresh and the save step + differential update/save/re-verify runs with an independent exactness oracle',
    level_text='Proved in Coq for all inputs: an entry refreshed by the update carries the size and the digests computed from the present content for exactly the requested '
-              'hash set, a vanished file is an error (C03_refresh_true_partial, C03_vanished_is_error). PARTIAL: the whole-tree statement (exactly one entry per file, '
+              'hash set, a vanished file is an error (C03_refresh_true_partial, C03_vanished_is_error); what the update writes for a file verifies - verify_path on the same file state with exactly that size and those '
+              'checksums returns success whenever it returns, for any streaming hash library (C03_refresh_then_verify) - and is a fixed point of a further refresh (C03_refresh_fixed_point). PARTIAL: the whole-tree statement (exactly one entry per file, '
               'parents reference rewritten children with their true digests, a fresh verification succeeds, whatever the prior Manifest state) is decided on generated '
               'trees by running model and /repo and checking the result with an independent exactness oracle and a fresh verification.',
    level_note='About Model/{Verify,Update}.v; the executable update/save model is the reference for disagreements; known findings D8, D11, D12 (unrepaired defects) are matched structurally.'),
